@@ -86,6 +86,12 @@ def _round(case: Dict[str, Any], path: str) -> CaseResult:
         except BaseException as e:  # noqa: BLE001
             if isinstance(e, KeyboardInterrupt):
                 raise
+            if any(f.get("kind") == "nopickle" for f in P["fns"].values()) and not isinstance(e, sched.HarnessSignal):
+                # a result cannot be pickled: a caching run that fails promises nothing (one that returns does)
+                res.cls("caching-run-refused-unpicklable-result")
+                if os.path.exists(path):
+                    os.remove(path)
+                return res
             res.viol("caching-run-raised", f"caching run ({cmode}, {csel}) raised {type(e).__name__}: {str(e)[:300]}")
             return res
         R1 = prog.Ref(selected=sel1)
@@ -108,7 +114,7 @@ def _round(case: Dict[str, Any], path: str) -> CaseResult:
             if set(csel or []) & cached_sites:
                 res.viol("deps-of-node-cached", f"cache_deps_of={csel}: the file contains {sorted(set(csel or []) & cached_sites)} itself")
         else:
-            exp_cached = set(R1.executed)
+            exp_cached = set(R1.executed) | set(R1.skipped)  # (a deactivated node has a result too: None)
             if cached_sites != exp_cached:
                 res.viol("cache-contents", f"file holds sites {sorted(cached_sites)}, executed were {sorted(exp_cached)}")
         # ---- restart run on a freshly built DAG - or on the SAME instance after a plain call in between (every setup
@@ -138,6 +144,11 @@ def _round(case: Dict[str, Any], path: str) -> CaseResult:
             e2 = _executor(b2, b2.node_ids(), rmode, rsel, from_cache=path)
             # the restart may omit the arguments: the inputs of the caching run are in the file
             args2 = [] if case.get("restart_omits_args") else args
+            if case.get("restart_args") is not None:
+                # the restart is called with OTHER argument values: what is in the file stays as it is, everything
+                # that runs now (and every twz_active=<parameter> decided now) sees the values of this call
+                args2 = [prog.dec(a) for a in case["restart_args"]]
+                res.cls("restart-with-other-arguments")
             with ex2:
                 v2 = asyncio.run(e2(*args2)) if is_async else e2(*args2)
         except BaseException as e:  # noqa: BLE001
@@ -151,7 +162,7 @@ def _round(case: Dict[str, Any], path: str) -> CaseResult:
         if again:
             res.viol("cached-node-recomputed", f"the restart executed {again} although their results are in the cache file" + tag)
         R2 = prog.Ref(selected=sel2, pre=dict(on_instance, **{s: R1.values[s] for s in cached_sites}))
-        rv2 = prog.ref_run(P, args, R2)
+        rv2 = prog.ref_run(P, args2 if case.get("restart_args") is not None else args, R2)
         want_entered = Counter(R2.executed)
         if not again and entered != want_entered:
             res.viol("restart-entries", f"the restart entered {sorted(entered.items())}, expected {sorted(want_entered.items())}" + tag)
@@ -189,6 +200,11 @@ def cases(draw: Any, tier: str) -> Dict[str, Any]:
     P = draw(gen.flat_prog(min_sites=3, max_sites=8, max_deps=3, resources=gen.RES, dep_kinds=("pos", "kw"),
                            n_params=npar, prio_range=(-1, 2), none_rate=0.2, short_name_rate=0.3, n_setup=draw(st.integers(0, 2))))
     sites = [s["site"] for s in P["body"]]
+    if gen.chance(draw, 0.08):
+        # fault at a point: one result cannot be pickled when the caching run writes its file
+        cand_ = [f for f in P["fns"].values() if f.get("kind") == "term" and not f.get("setup") and not f.get("stamp")]
+        if cand_:
+            draw(st.sampled_from(cand_))["kind"] = "nopickle"
     case: Dict[str, Any] = {"prog": P, "mc": draw(st.integers(1, 3)), "async": draw(st.booleans()), "args": [draw(st.sampled_from([0, 1, "a"])) for _ in range(npar)]}
     case["cache_mode"] = draw(st.sampled_from(["whole", "target", "target", "deps_of", "deps_of"]))
     if case["cache_mode"] != "whole":
@@ -197,6 +213,11 @@ def cases(draw: Any, tier: str) -> Dict[str, Any]:
         # the parameter has a default, the caching run overrides it, the restart passes nothing
         P["params"] = [[P["params"][0][0], {"d": draw(st.sampled_from([7, "dflt"]))}]]
         case["restart_omits_args"] = True
+    elif npar and draw(st.booleans()):
+        case["restart_args"] = [draw(st.sampled_from([0, 1, "a", "", 2]))]
+        cand = [b for b in P["body"] if b.get("active") is None and not P["fns"][b["fn"]].get("setup") and not P["fns"][b["fn"]].get("pair")]
+        if cand and draw(st.booleans()):
+            draw(st.sampled_from(cand))["active"] = ["p", P["params"][0][0]]  # a site flagged by the DAG's parameter
     if case["cache_mode"] == "deps_of":
         case["restart_mode"] = draw(st.sampled_from(["whole", "deps_of", "deps_of"]))
     elif case["cache_mode"] == "target":
